@@ -10,6 +10,7 @@ BASE = ["PrimeModulus", "MontConstants", "ResidueConstants", "GeneratorOnCurve",
         "OrderAnnihilatesGenerator", "HasseAndCofactor", "CofactorClears", "CurveFlags", "SecurityLevel",
         "GeneratorTable", "MapConstants"]
 ENDOM = ["BetaCubeRoot", "LambdaRoot", "PsiIsLambda", "GlvBasis", "GlvShort", "GlvRounding"]
+EXPECTED = {"std256": [12, 13, 14, 15, 23, 24], "ep-jacob": [12, 13, 14, 15, 23, 24]}     # ids of the pinned 256-bit build
 PAIR = ["FamilyPolynomials", "CurveOrderFromTrace", "EmbeddingDegree", "TowerIsField", "TwistCoefficients",
         "TwistGenerator", "TwistOrder", "TwistCofactor", "FrobeniusOnG2", "TwistCofactorClears"]
 
@@ -56,9 +57,19 @@ def run(tier, seed):
             ev.cov["parts"][cfg] = dict(skipped=str(ex)[:300])
             continue
         events = []
-        for dct in dumps:
+        for want in EXPECTED.get(cfg, []):
+            if want not in ids:
+                rp = core.save_replay("C18", dict(property="C18", cfg=cfg, id=want, rel="Selectable", event={}),
+                                      name="%s-%s-Selectable" % (cfg, want))
+                violations.append((rp, "cfg=%s id=%s: a parameter set of the pinned build can no longer be selected" % (cfg, want)))
+        for dct in list(dumps):
             if dct.get("id", -1) <= 0:
-                raise core.InfraError("parameter id %s was accepted by the id scan but not by the dump" % dct.get("id"))
+                # selectable in a fresh context (id scan) but not after the sets dumped before it
+                rp = core.save_replay("C18", dict(property="C18", cfg=cfg, id=-dct.get("id", 0), rel="SelectableAfterOthers", event={}),
+                                      name="%s-%s-SelectableAfterOthers" % (cfg, -dct.get("id", 0)))
+                violations.append((rp, "cfg=%s id=%s: selection fails after other sets were selected in the same context"
+                                   % (cfg, -dct.get("id", 0))))
+                dumps.remove(dct)
             for rel in relations_of(dct):
                 e = dict(dct)
                 e["rel"] = rel
@@ -133,6 +144,8 @@ def replay(path, seed):
     if not e:
         core.report_violation("C18", path, "parameter id no longer accepted")
         return 1
+    if r["rel"] in ("Selectable", "SelectableAfterOthers"):
+        return 0
     e[0]["rel"] = r["rel"]
     e[0]["i"] = 0
     v = core.validate_trace("trace/ParamTrace.tla", e[:1], os.path.join(wd, "tlc"), shards=1,
